@@ -9,6 +9,9 @@ rule a reader has to agree with in `Spec/Names.lean` (`Spec.split`, `Spec.vonLas
 brace-nesting limit, or starts with an ASCII capital).  Tokenisation and comma splitting are
 the C12 primitives `splitTex .space` / `splitTex .comma`.
 
+The concrete names used by the `_nonvacuous` / `_neg` witnesses (`nameVP`, `nameVB`,
+`tokDeepLower`, `nameDeepLower`, `nameDeep`) are defined at the end of `Lemmas/Names.lean`.
+
 `parseName` is `_parse_string` on the stripped argument (`mkPerson` strips and calls it only
 for a non-empty result, as `Person.__init__` does).
 -/
@@ -16,19 +19,6 @@ import PybtexModel.Lemmas.Names
 
 namespace Pybtex.Props
 open Pybtex Spec Names
-
-/-! ### witnesses used by the non-vacuity examples -/
-
-/-- "Charles Louis Xavier Joseph de la Vall{\'e}e Poussin" -/
-def nameVP : Str := "Charles Louis Xavier Joseph de la Vall{\\'e}e Poussin".toList
-/-- "von Beethoven, Jr, Ludwig" -/
-def nameVB : Str := "von Beethoven, Jr, Ludwig".toList
-/-- `a{{…{}…}} B` with 101 nested braces: the first token starts with a lower-case letter and
-does not scan within the nesting limit. -/
-def nameDeepLower : Str :=
-  'a' :: (List.replicate 101 '{' ++ List.replicate 101 '}' ++ " B".toList)
-/-- `{{…{}…}} B` with 101 nested braces: the first token has to be scanned and is too deep. -/
-def nameDeep : Str := List.replicate 101 '{' ++ List.replicate 101 '}' ++ " B".toList
 
 /-! ### 1. the model is the BibTeX rule -/
 
@@ -55,7 +45,7 @@ theorem C04_matches_spec_nonvacuous :
     parseName nameVB = .ok
       ({ first := ["Ludwig".toList], middle := [], prelast := ["von".toList],
          last := ["Beethoven".toList], lineage := ["Jr".toList] }, false) := by
-  decide
+  decide +kernel
 
 /-- The same with the plain hypothesis "every case-deciding token scans". -/
 theorem C04_matches_spec_of_scan (name : Str) (hne : name ≠ [])
@@ -64,7 +54,7 @@ theorem C04_matches_spec_of_scan (name : Str) (hne : name ≠ [])
   C04_matches_spec name hne (fun t ht => caseKnown_of_scan (hs t ht))
 
 theorem C04_matches_spec_of_scan_nonvacuous :
-    nameVP ≠ [] ∧ ∀ t ∈ Spec.caseTokens nameVP, (scan t).isSome = true := by decide
+    nameVP ≠ [] ∧ ∀ t ∈ Spec.caseTokens nameVP, (scan t).isSome = true := by decide +kernel
 
 /-- Whenever `_parse_string` succeeds, its result is the rule's split computed with
 "`is_von_name` answers yes" as the lower-case test — no hypothesis on the string. -/
@@ -72,20 +62,19 @@ theorem C04_matches_rule_any (name : Str) (r : Person × Bool) (h : parseName na
     r = splitWith isVonB name :=
   parseName_ok h (fun t _ b hb => by simp [isVonB, hb])
 
-theorem C04_matches_rule_any_nonvacuous : ∃ r, parseName nameVB = .ok r := ⟨_, by decide⟩
+theorem C04_matches_rule_any_nonvacuous : ∃ r, parseName nameVB = .ok r :=
+  ⟨_, C04_matches_spec_nonvacuous.2.2.2⟩
 
 /-- The hypothesis of `C04_matches_spec` cannot be dropped for tokens that start with a
 lower-case letter: `is_von_name` answers "lower-case" from the first character alone, while the
 rule gives no case to a token nested deeper than the limit.  (Success alone does not imply
 agreement with `Spec.split`.) -/
 theorem C04_matches_spec_neg :
-    (∃ r, parseName nameDeepLower = .ok r ∧ r ≠ Spec.split nameDeepLower) ∧
+    parseName nameDeepLower = .ok ({ prelast := [tokDeepLower], last := [['B']] }, false) ∧
+    Spec.split nameDeepLower = ({ first := [tokDeepLower], last := [['B']] }, false) ∧
     (∀ t ∈ Spec.caseTokens nameDeepLower,
       (match t with | c :: _ => isAlpha c | [] => false) = true ∨ (scan t).isSome = true) := by
-  refine ⟨?_, by decide +kernel⟩
-  cases h : parseName nameDeepLower with
-  | error e => revert h; decide +kernel
-  | ok r => exact ⟨r, rfl, by rw [← Except.ok.injEq (ε := NameErr), ← h]; decide +kernel⟩
+  decide +kernel
 
 /-- Case of one token: for a non-empty token whose case is decidable `is_von_name` is the
 rule's "the token is lower-case" (first brace-level-0 letter, or first letter after the
@@ -98,7 +87,7 @@ theorem C04_case_of_token_nonvacuous :
     let t := "{\\'e}cole".toList
     t ≠ [] ∧ Spec.caseKnown t = true ∧ Spec.isLow t = true ∧
     Spec.isLow "{\\'E}cole".toList = false ∧ Spec.isLow "{\\relax von}".toList = true := by
-  decide
+  decide +kernel
 
 /-! ### 2. totality -/
 
@@ -166,24 +155,27 @@ theorem C04_tokens_preserved (name : Str) (p : Person) (b : Bool)
       p.first ++ p.middle = splitTex .space (joinWith [' '] rest) := by
   have hr := C04_matches_rule_any name _ h
   have hne : name ≠ [] := by
-    rintro rfl; revert h; decide
+    rintro rfl
+    have : parseName [] = .error .valueError := by decide +kernel
+    rw [this] at h; cases h
   have h1 := splitWith_first isVonB name
   have h2 := splitWith_tokens isVonB name
   rw [← hr] at h1 h2
   refine ⟨h1, ?_⟩
   have hc := splitTex_comma_ne_nil hne
   revert h2 hc
-  cases splitTex .comma name with
-  | nil => intro _ hc; exact hc rfl
-  | cons a r => intro h2 _; exact h2
+  generalize splitTex .comma name = parts
+  intro h2 hc
+  match parts, hc with
+  | [_], _ => exact h2
+  | [_, _], _ => exact h2
+  | _ :: _ :: _ :: _, _ => exact h2
 
 theorem C04_tokens_preserved_nonvacuous :
     (∃ p b, parseName nameVP = .ok (p, b)) ∧ (∃ p b, parseName nameVB = .ok (p, b)) ∧
     (∃ p, parseName "a, b, c, d e".toList = .ok (p, true)) := by
-  refine ⟨⟨_, _, ?_⟩, ⟨_, _, ?_⟩, ⟨_, ?_⟩⟩
-  · exact C04_matches_spec_nonvacuous.2.1
-  · exact C04_matches_spec_nonvacuous.2.2.2
-  · exact C04_total_nonvacuous.1
+  exact ⟨⟨_, _, C04_matches_spec_nonvacuous.2.1⟩, ⟨_, _, C04_matches_spec_nonvacuous.2.2.2⟩,
+    ⟨_, C04_total_nonvacuous.1⟩⟩
 
 /-! ### 4. the von part -/
 
@@ -212,7 +204,7 @@ theorem C04_von_longest_nonvacuous :
     (∀ t ∈ Spec.caseTokens nameVP, Spec.caseKnown t = true) ∧
     (∃ p b, parseName nameVP = .ok (p, b) ∧ p.prelast ≠ [] ∧
       ∃ t ∈ (p.prelast ++ p.last).dropLast, Spec.isLow t = true) :=
-  ⟨C04_matches_spec_nonvacuous.1.2, _, _, C04_matches_spec_nonvacuous.2.1, by decide, by decide⟩
+  ⟨C04_matches_spec_nonvacuous.1.2, _, _, C04_matches_spec_nonvacuous.2.1, by decide +kernel, by decide +kernel⟩
 
 /-- No-comma form ("First von Last"): no token of First is lower-case; von, when present,
 starts with a lower-case token (the first one of the name); a lower-case token before the
@@ -236,7 +228,7 @@ theorem C04_case_rule_nonvacuous :
     splitTex .comma nameVP = [nameVP] ∧
     (∀ t ∈ splitTex .space nameVP, Spec.caseKnown t = true) ∧
     (∃ p b, parseName nameVP = .ok (p, b) ∧ p.first ++ p.middle ≠ [] ∧ p.prelast ≠ []) :=
-  ⟨by decide, by decide, _, _, C04_matches_spec_nonvacuous.2.1, by decide, by decide⟩
+  ⟨by decide +kernel, by decide +kernel, _, _, C04_matches_spec_nonvacuous.2.1, by decide +kernel, by decide +kernel⟩
 
 /-! ### 5. explicit part arguments -/
 
@@ -266,10 +258,13 @@ theorem C04_parts_same_tokenisation (f m p l j : Str) :
       · rename_i hne; rw [if_neg hne]; cases hb; exact ⟨rfl, rfl⟩
 
 theorem C04_parts_same_tokenisation_nonvacuous :
-    mkPerson "Ludwig".toList [] "van der".toList [] "Beethoven~{Jr {III}}".toList [] [] = .ok
+    mkPerson [] "Ludwig".toList "van~der".toList [] "Beethoven {Jr {III}}".toList "jr".toList = .ok
       ({ first := ["Ludwig".toList], middle := ["van".toList, "der".toList], prelast := [],
-         last := ["Beethoven".toList, "{Jr {III}}".toList], lineage := [] }, false) := by
-  decide
+         last := ["Beethoven".toList, "{Jr {III}}".toList], lineage := ["jr".toList] }, false) ∧
+    mkPerson "  Ludwig van Beethoven ".toList [] "X.".toList [] [] "jr".toList = .ok
+      ({ first := ["Ludwig".toList], middle := ["X.".toList], prelast := ["van".toList],
+         last := ["Beethoven".toList], lineage := ["jr".toList] }, false) := by
+  decide +kernel
 
 /-! ### 6. braced groups are never split (reduction to C12) -/
 
@@ -306,7 +301,8 @@ theorem C04_braces_atomic (name : Str) (p : Person) (b : Bool)
           simp only [] at hp
           rw [hp.2.1, List.append_nil] at ht
           have : t ∈ (p.prelast ++ p.last) ++ (p.first ++ p.middle) := by
-            simp only [List.mem_append] at ht ⊢; tauto
+            simp only [List.mem_append] at ht ⊢
+            rcases ht with ((h | h) | h) | h <;> simp [h]
           rw [hp.1, hp.2.2] at this
           rcases List.mem_append.mp this with h1 | h1
           · exact ⟨a, Or.inr (Or.inl (by simp)), h1⟩
@@ -315,7 +311,8 @@ theorem C04_braces_atomic (name : Str) (p : Person) (b : Bool)
           intro hp
           simp only [] at hp
           have : t ∈ (p.prelast ++ p.last) ++ p.lineage ++ (p.first ++ p.middle) := by
-            simp only [List.mem_append] at ht ⊢; tauto
+            simp only [List.mem_append] at ht ⊢
+            rcases ht with (((h | h) | h) | h) | h <;> simp [h]
           rw [hp.1, hp.2.1, hp.2.2] at this
           rcases List.mem_append.mp this with h1 | h1
           · rcases List.mem_append.mp h1 with h1 | h1
@@ -330,6 +327,6 @@ theorem C04_braces_atomic_nonvacuous :
     parseName "{von Last}, {Jr, III}, First~{de la}".toList = .ok
       ({ first := ["First".toList], middle := ["{de la}".toList], prelast := [],
          last := ["{von Last}".toList], lineage := ["{Jr, III}".toList] }, false) := by
-  decide
+  decide +kernel
 
 end Pybtex.Props
